@@ -181,7 +181,8 @@ def qconfig(cls, name, sel):
     if cls in ("AveragePooling2D", "GlobalAveragePooling2D"):
       return {"average_quantizer": "AVG#" + tag, "activation_quantizer": "ACT#" + tag}
     d = {"kernel_quantizer": "K#" + tag, "bias_quantizer": "Bq#" + tag, "depthwise_quantizer": "D#" + tag,
-         "recurrent_quantizer": "R#" + tag, "state_quantizer": "S#" + tag}
+         "recurrent_quantizer": "R#" + tag, "state_quantizer": "S#" + tag,
+         "recurrent_activation_quantizer": "RA#" + tag, "pointwise_quantizer": "P#" + tag}
     if tag == "name":
       d["activation_quantizer"] = "ACT#name"
     return d
